@@ -116,6 +116,13 @@ Theorem C12_mime_sgd_one_step_is_fullbatch_step : forall slr (cohorts : list (li
                fullbatch_chain grad split eta slr p cohorts q.
 Proof. exact (mime_runs_fullbatch grad split copt_apply copt_apply_length grad_length eta copt_is_sgd). Qed.
 
+(* the round the guard above excludes: no example and no training batch -> parameters unchanged *)
+Theorem C12_mime_empty_round_keeps_params : forall slr p s (clients : list mclient),
+  NoDup (map c_id (map fst clients)) -> Forall (fun mc : mclient => c_batches (fst mc) = []) clients ->
+  (total_examples (map fst clients) <= 0)%Z ->
+  exists q s1, mime grad split copt_apply slr (p, s) clients = Some (q, s1) /\ q =v= p.
+Proof. exact (mime_empty_round_keeps_params grad split copt_apply (mime_step grad split copt_apply) true). Qed.
+
 (* ... and c is the gradient over the whole cohort: the mean of the per-batch gradients
    weighted by their numbers of real examples *)
 Theorem C12_mime_control_variate_is_cohort_gradient : forall p (clients : list mclient),
@@ -260,6 +267,7 @@ Print Assumptions C12_fedprox_mu0_eq_fedavg.
 Print Assumptions C12_hypcluster_one_cluster_eq_fedavg.
 Print Assumptions C12_mimelite_sgd_lr1_eq_fedavg.
 Print Assumptions C12_mime_sgd_one_step_is_fullbatch_step.
+Print Assumptions C12_mime_empty_round_keeps_params.
 Print Assumptions C12_mime_control_variate_is_cohort_gradient.
 Print Assumptions C12_mime_fullbatch_gradient_includes_regularizer.
 Print Assumptions C12_source_fedavg_is_skeleton.
